@@ -1,6 +1,6 @@
 """C47 — Paje traces are well formed.
 Theorems: lean/SgVerif/C47/Props.lean (buffer sortedness / dump prefix / emitted order under the no-late-insert hypothesis;
-automaton soundness).  Correspondence: generated S4U programs x tracing options -> the produced trace file is judged line
+automaton soundness; destroy_balanced_spec: push / pop balance when a container is destroyed).  Correspondence: generated S4U programs x tracing options -> the produced trace file is judged line
 by line by the compiled Lean automaton (drv_C47); a rejected line is a violation with (program, options) as replay."""
 import json
 import os
@@ -160,7 +160,8 @@ def convert(path, cid, problems, names=None):
 
 def run(ctx):
     ctx.cov["rule"] = ("(program, tracing options) pairs: generated S4U scripts (1-5 actors, execs/sleeps/comms with categories, "
-                       "actor creation and kills at t>0 in the 'dynamic' profile) x 8 option sets; non-trivial = distinct pair whose "
+                       "actor creation and kills at t>0 in the 'dynamic' profile; 'commfault' profile with tracing/actor: matched communications "
+                       "that time out / are cancelled / fail on a link failure, unmatched ones, killed actors) x 8 option sets; non-trivial = distinct pair whose "
                        "trace has >= 20 event lines")
     ctx.assumptions += ["timestamps are compared at the printed precision (6 digits)",
                         "MPI programs under smpirun -trace are not exercised (S4U only)",
